@@ -3,6 +3,7 @@ import itertools
 from fractions import Fraction as F
 
 from .. import alphabet as A
+from .. import core
 from .. import refmodel as R
 from .. import shapes as S
 
@@ -120,11 +121,14 @@ def gen_cases(tier, seed):
             if tier == 'quick' and sz[0] * sz[1] * sz[2] > 256 and rat:
                 continue        # the rational huge volumes cost ~40 s each: thorough only
             cases.append(dict(kind='volume', shape=_desc(sz, degs, rat)))
+    cases.append(dict(kind='session', name='sizes'))
     cases.append(dict(kind='container', shapes=[_desc((2, 3), (1, 2), False), _desc((4, 3), (2, 1), True), _desc((3, 5), (2, 2), False)]))
     return cases
 
 
 def case_weight(c):
+    if c.get('kind') == 'session':
+        return 3000
     if 'shape' not in c:
         return 1
     d = c['shape']
@@ -134,7 +138,23 @@ def case_weight(c):
     return w * (3 if d['rational'] else 1) * (8 if c['kind'] == 'volume' else 1)
 
 
+def _session_cases(name, tier):
+    """long session: extraction / construction on nets of 48 pairwise different sizes (surfaces a x b, volumes a x b x 2), small first"""
+    out = []
+    for a in range(2, 8):
+        for b in range(2, 10):
+            if a == b:
+                continue
+            out.append(dict(kind='surface', shape=_desc((a, b), (1, 1), (a + b) % 2 == 0), only='extract_curves'))
+            if (a + b) % 3 == 0:
+                out.append(dict(kind='volume', shape=_desc((a, b, 2 + (a % 2)), (1, 1, 1), False), only='extract_surfaces'))
+    return out
+
+
 def run_case(case, ctx):
+    if case.get('kind') == 'session':
+        import sys
+        return core.run_session(sys.modules[__name__], ctx, case, _session_cases(case['name'], ctx.tier), 12)
     ctx.state(case, nontrivial=True)
     {'manager': _manager, 'fliphelpers': _fliphelpers, 'surface': _surface, 'volume': _volume, 'sweep': _sweep,
      'container': _container}[case['kind']](case, ctx)
